@@ -40,6 +40,10 @@ CHECKS = {
    text="Explicit-state breadth-first search on the implementation: all histories up to the depth bound over ~90 concrete recorder operations (register top-level / nested, journal change, enter call, exit call over 2 accounts, shared slots, offsets in and out of range, 2 type ids, colliding names), successor = replay on a fresh recorder + one operation, visited set keyed by the canonical dump of the recorder's private maps plus the model state; every transition is checked against a two-map reference model (acceptance/refusal, unchanged dump on refusal and on repeated registration, same record by name path and by (slot, offset, type), journal visible last under the current call in both views, child index sets, stability of every earlier registration).",
    tech="explicit-state BFS over operation histories of the real object with state hashing on its private state, transition-wise comparison with a reference model in the implementation language",
    note="Histories are not expanded beyond the first conflicting registration; its immediate symptoms are the two known-finding signatures, everything else (including any effect on earlier registrations) is reported."),
+ "C20": dict(cat="model_checking", ref="DESIGN.md §4 C20",
+   text="Bounded exhaustive exploration on the implementation under per-instruction work monitors: the standard instruction matrix (calibration), the journal-opcode operand x memory x storage product, key-journal instructions over 1 KiB..1 MiB of paid memory, reference journals over strings of 31..2^63 bytes, and CALLs into every precompile (1-9, 0x64-0x66) with sizes up to 1 MiB, modexp length triples up to 2^32 and blake2f round counts up to 2^32-1; for every executed instruction the state reads, heap bytes allocated and bytes retained by the recorder between its step callback and the next are compared with fixed multiples of the gas it consumed; unbounded loops are cut by a state-read sentinel and worker deaths are attributed to the case in flight.",
+   tech="stateless bounded-exhaustive enumeration of inputs executed on the real code with per-instruction resource monitors (counting StateDB, runtime allocation counter, recorder retention) and fixed per-gas bounds",
+   note="Allocation accounting is span-granular for small objects (64 KiB base allowance); verdicts are re-measured three times before being reported. Open findings: flat-fee reference/key journals (known_findings.txt)."),
 }
 
 NOT_YET = {}
